@@ -119,6 +119,11 @@ def gen_cases(tier, seed):
             cases[-1]["cfg"].update({"src_name": "übergröße 文件.bin", "dst_name": "зона 51 ☃.dat"})  # names with non-ASCII characters and blanks
         if rng.random() < 0.15:
             cases[-1]["busy_put"] = rng.randrange(0, 6)
+        if rng.random() < 0.15:
+            # the optional parts of a put request (filestore requests, fault handler overrides, a flow label - also an empty one); none of
+            # them is something the receiver of this library acts on, all of them travel in the Metadata PDU
+            cases[-1]["cfg"]["opts"] = rng.choice([{"flow_label": "0a0b"}, {"flow_label": ""}, {"fs_requests": 2}, {"overrides": 3},
+                                                   {"fs_requests": 1, "overrides": 1, "flow_label": "ff"}])
         if rng.random() < 0.25:
             # the receiver's own configuration for this sender disagrees with what the PDUs say (checksum type, PDU CRC, closure, mode,
             # segment length): the Metadata PDU and the PDU headers decide, not the receiver's defaults
@@ -141,6 +146,8 @@ def gen_cases(tier, seed):
         if rng.random() < 0.5:
             first["retune"] = rng.randrange(1, 1 << 30)
         first["seq_pacing"] = rng.choice(list(PACINGS))
+        if rng.random() < 0.35:
+            first["given_up"], first["given_up_at"] = rng.randrange(0, 3), rng.choice(["EOF", "EOF", "FD", "MD"])
         cases.append(first)
     return cases
 
@@ -166,6 +173,13 @@ def run_sequence(case):
             w.data = b"" if kind == "md_only" else bytes((7 * i + j) & 0xFF for j in range(size))
             if kind != "md_only":
                 w.write_raw("src", w.src_path, w.data)
+            if case.get("given_up") is not None and i == case["given_up"] % len(case["seq"]) and kind != "md_only":
+                # before this request the user starts the same transfer and gives it up in the middle (reset() on both handlers, with PDUs of
+                # the last call not yet retrieved): the request which follows must run to completion like any other
+                from ..world import give_up_undrained
+
+                if give_up_undrained(w, stop_kind=case.get("given_up_at", "EOF")):
+                    obs["requests_after_a_transfer_given_up_with_reset"] = obs.get("requests_after_a_transfer_given_up_with_reset", 0) + 1
             mark = w.log.seq
             drift = None
             if case.get("retune") and cfg["mode"] == "ack":
@@ -286,4 +300,5 @@ def run_case(case):
     return {"viol": viol, "sig": sig, "obs": obs, "keys": keys, "sample": sample}
 
 
-REQUIRED = {"success_reports_checked": 100, "pdus_delivered": 1000, "transfers_on_reused_handlers": 100, "dest_dir_existing": 20, "refused_requests_before_a_valid_one": 50, "refused_put_requests_during_transfer": 50, "transfers_with_time_passing_between_calls": 200, "transfers_with_longest_possible_file_names": 30, "slow_transfer_after_timers_were_retuned": 30}
+REQUIRED = {"success_reports_checked": 100, "pdus_delivered": 1000, "transfers_on_reused_handlers": 100, "dest_dir_existing": 20, "refused_requests_before_a_valid_one": 50, "refused_put_requests_during_transfer": 50, "transfers_with_time_passing_between_calls": 200, "transfers_with_longest_possible_file_names": 30, "slow_transfer_after_timers_were_retuned": 30,
+            "requests_after_a_transfer_given_up_with_reset": 40}
